@@ -482,3 +482,6 @@ COMPONENTS = {
     "real": ["mpilot.libraries.eems.csv.io.EEMSRead / EEMSWrite", "mpilot.program / commands / params", "csv", "numpy"],
     "stub": ["file system: SimFS", "environment actor (file rewritten between write and read)"],
 }
+
+
+STATE_MEASURE = {'C17': 'abstract state = (columns, rows, actor steps); schedule key = (actor steps, number of reads)'}
